@@ -5,14 +5,8 @@ Require Import Gengo.Base.Bytes Gengo.Model.Pipeline Gengo.Proofs.Pipeline Gengo
 From Coq Require Import Permutation.
 
 (* no formatter table: everything "parses" and is written as assembled; map order = list order *)
-Definition wit_env (fixed : bool) : env := {|
-  e_fmt := fun src => Some src;
-  e_sum_load := sumfile_load;
-  e_sum_bytes := sumfile_bytes;
-  e_enabled := simple_enabled;
-  e_order := fun _ l => l;
-  e_fixed := fixed
-|}.
+(* the composed model (Model/Whole.v): byte-level gengo.sum, Dispatch's enabling rule *)
+Definition wit_env (fixed : bool) : env := whole_env_fx fixed (fun src => Some src) (fun _ l => l) rank0 [].
 
 Lemma wit_order_ok : forall fixed, order_ok (wit_env fixed).
 Proof. intros fixed p l. apply Permutation_refl. Qed.
